@@ -92,6 +92,9 @@ def case_s(draw):
         "schema": {"t_vector": draw(st.booleans()), "g_sortable": draw(st.booleans()),
                    "n_sortable": draw(st.booleans()), "t_boost": draw(st.sampled_from([1.0, 2.0])),
                    "c_column": c_column},
+        # the last commit replaces the index (mergetype=CLEAR): an option that changes the logical result, so a
+        # front-end that loses commit arguments is seen
+        "clear_last": draw(st.sampled_from([False, False, True])),
     }
 
 
@@ -105,6 +108,10 @@ def build_config(case, cfg, path, info):
     writer = cfg["writer"]
     if writer == "mp" and kind == "ram":
         kind = "file"
+    if case.get("clear_last") and writer == "buffered":
+        # (a BufferedWriter applies its commit arguments to every intermediate flush as well, which with CLEAR is a
+        # different request from "one commit that replaces the index")
+        writer = "seg"
     ix = corpus.create_index(kind, path, schema)
     kw = {}
     if not cfg["compound"]:
@@ -117,7 +124,13 @@ def build_config(case, cfg, path, info):
         ck["merge"] = False
     elif cfg["merge"] == "opt":
         ck["optimize"] = True
-    for ops in case["epochs"]:
+    nep = len(case["epochs"])
+    base_ck = ck
+    for ei, ops in enumerate(case["epochs"]):
+        ck = dict(base_ck)
+        if case.get("clear_last") and ei == nep - 1 and nep > 1 and not any(op[0] in ("delk", "upd") for op in ops):
+            ck = {"mergetype": writing.CLEAR}
+            info["clear_last"] = True
         if writer == "seg":
             w = ix.writer(**kw)
             c06._apply_ops(w, ops)
@@ -201,7 +214,8 @@ def run(case, out):
                 out.fail("c18.probe_results_differ:%s%s" % (tag, "" if has_del else ":scores"), [cfg, rprobe, vp])
             if tag != "buffered":
                 # BufferedWriter makes no promise about groups (it may flush inside one)
-                c06.check_groups(ix, case, _Prefix(out, "c18.%s." % tag), "c%d" % ci)
+                gcase = dict(case, epochs=case["epochs"][-1:]) if info.get("clear_last") else case
+                c06.check_groups(ix, gcase, _Prefix(out, "c18.%s." % tag), "c%d" % ci)
             ix.close()
             skel.append(sorted(cfg.items()))
             out.label("writer_" + tag, "storage_" + cfg["storage"], "after_" + cfg["after"])
@@ -212,6 +226,8 @@ def run(case, out):
         out.label("mp_two_or_more_processes")
     if has_del:
         out.label("has_deletes")
+    if info_all.get("clear_last"):
+        out.label("last_commit_CLEAR")
     if info_all.get("pool_spills"):
         out.label("posting_pool_spilled_to_runs")
 
